@@ -179,7 +179,7 @@ def generate(ctx):
 def execute(ctx, sc):
     f = File(sc["file"])
     sched = sc["schedule"]
-    fs = simfs.SimFS(event_budget=300000 if sched == "sweep" else 20000)
+    fs = simfs.SimFS(event_budget=300000 if sched in ("sweep", "capped") else 20000)
     fs.put(f.spec.path, f.stored)
     g = File(sc["file_b"]) if sc.get("file_b") else None
     if g is not None:
